@@ -106,6 +106,40 @@ def search(res, tier, boost=False):
                                 res.violation('C04:negative-entry', dict(curve=cname, pw_exact=pw, test=describe(te), trial=describe(tr), value=float(v), scale=sc))
                             if ref > 1e-250 and not v > 0:
                                 res.violation('C04:entry-not-positive', dict(curve=cname, pw_exact=pw, test=describe(te), trial=describe(tr), value=float(v), reference=ref))
+        # the worker-pool path (causality guard of MP_SL_matrix_col), as a history of calls on ONE operator with the SAME
+        # list objects reordered in place between the calls (time-slab order gives the block lower-triangular form)
+        SL = ops.SL[False]
+        reps = -(-10 // len(elems))
+        lt, lr = list(elems) * reps, list(elems) * reps
+        rng.shuffle(lt)
+        rng.shuffle(lr)
+        for step in ('shuffled', 'time-ordered', 'reversed'):
+            if step == 'time-ordered':
+                lt.sort(key=lambda e: (float(e.time_interval[0]), float(e.time_interval[1])))
+                lr.sort(key=lambda e: (float(e.time_interval[0]), float(e.time_interval[1])))
+            elif step == 'reversed':
+                lt.reverse()
+                lr.reverse()
+            with contextlib.redirect_stdout(io.StringIO()):
+                mp_mat = SL.bilform_matrix(lt, lr, use_mp=True)
+            bad = 0
+            for i, te in enumerate(lt):
+                for j, tr in enumerate(lr):
+                    acausal = te.time_interval[1] <= tr.time_interval[0]
+                    res.count(('mpmat', cname, mi, step, i, j), True)
+                    single = SL.bilform(tr, te)
+                    if bad < 3 and acausal and mp_mat[i, j] != 0:
+                        bad += 1
+                        res.violation('C04:acausal-entry-nonzero:pool-path', dict(curve=cname, call=step, i=i, j=j, test=describe(te),
+                                      trial=describe(tr), value=float(mp_mat[i, j]),
+                                      history='bilform_matrix(lt, lr, use_mp=True) on one operator; lt, lr shuffled, then '
+                                      'sorted by time slab in place, then reversed in place'))
+                    elif bad < 3 and not acausal and mp_mat[i, j] != single:
+                        bad += 1
+                        res.violation('C04:matrix-not-rows-test-columns-trial:pool-path', dict(curve=cname, call=step, i=i, j=j,
+                                      test=describe(te), trial=describe(tr), entry=float(mp_mat[i, j]), single=float(single),
+                                      history='bilform_matrix(lt, lr, use_mp=True) on one operator; lt, lr shuffled, then '
+                                      'sorted by time slab in place, then reversed in place'))
         # small rectangular sub-lists (N*M < 100: the inline path) must be the table of single calls, rows = test
         for _ in range(6 if tier == 'quick' else 30):
             nt, nr = rng.randint(1, 9), rng.randint(1, 9)
